@@ -524,6 +524,22 @@ def values_equal(a, b):
     return b_and(*conj)
 
 
+def lam_array(k, body):
+    """Lambda k. body, eta-reduced when body is `select(A, k)` with A independent of k (so equal lists get equal terms)"""
+    body = to_z3(body)
+    if z3.is_select(body) and body.num_args() == 2:
+        a, i = body.arg(0), body.arg(1)
+        if i.eq(k) and not _mentions(a, k):
+            return a
+    return z3.Lambda([k], body)
+
+
+def _mentions(e, v):
+    if e.eq(v):
+        return True
+    return any(_mentions(c, v) for c in e.children())
+
+
 # ---------------------------------------------------------------- SymList
 class SymList:
     """python list with symbolic length. tmpl: a value giving the structure of one element;
